@@ -207,7 +207,23 @@ def value_of(x):
     return [None, 0, '', x * 7 + 1, 'v%d' % x, -x][x % 6] if x > 2 else [None, 0, ''][x]
 
 
-_CUR = dict(log=[], raising=set(), keyerr=set())
+_CUR = dict(log=[], raising=set(), keyerr=set(), refuse=set())
+
+
+class NoWay(object):
+    """a result no archive can encode (its pickling raises); equal and hashable by its number, so that it can be interned"""
+    def __init__(self, n): self.n = n
+    def __eq__(self, o): return isinstance(o, NoWay) and o.n == self.n
+    def __ne__(self, o): return not self == o
+    def __hash__(self): return hash(('NoWay', self.n))
+    def __repr__(self): return 'NoWay(%d)' % self.n
+    def __reduce__(self): raise TypeError('cannot serialise NoWay(%d)' % self.n)
+    __reduce_ex__ = lambda self, proto: self.__reduce__()
+
+
+def result_of(x):
+    """refuse stratum (model M3F): some arguments have a result the attached archive refuses"""
+    return NoWay(x) if x in _CUR.get('refuse', ()) else value_of(x)
 
 
 def fun(x):
@@ -227,7 +243,7 @@ def fun(x):
             rec['call'](xx - 1); rec['call'](xx - 2)
     if xx in _CUR['keyerr']: raise KeyError(xx)
     if xx in _CUR['raising']: raise (Halt if xx % 2 else Boom)(xx) from ROOT_CAUSE        # (explicitly chained: what arrives must still say so)
-    return value_of(xx)
+    return result_of(xx)
 
 
 def other(x):
@@ -251,7 +267,7 @@ class Runner:
         mod = klepto.safe if cfg['safe'] else klepto
         C = getattr(mod, cfg['algo'] + '_cache')
         raising, keyerr = set(cfg['raising']), set(cfg['keyerr'])
-        _CUR.update(log=self.log, raising=raising, keyerr=keyerr)
+        _CUR.update(log=self.log, raising=raising, keyerr=keyerr, refuse=set(cfg.get('refuse') or ()))
         self.fun = fun
         self.orig = None
         c, arch, bare = make_backend(cfg['backend'], tmp, variant=cfg.get('variant', 0))
@@ -316,9 +332,18 @@ class Runner:
 
     def cfg_line(self):
         c = self.cfg
-        return dict(suite='wrapper', op='cfg', algo=c['algo'], safe=c['safe'], maxsize=c['maxsize'],
+        line = dict(suite='wrapper', op='cfg', algo=c['algo'], safe=c['safe'], maxsize=c['maxsize'],
                     purge=(True if c['algo'] == 'no' else (False if c['algo'] == 'inf' else c['purge'])),
                     bare=self.bare, mem=self.init_mem, arch=self.init_arch)
+        if c.get('refuse'):
+            # model M3F: which (interned) results the archive refuses, whether its bulk write is all-or-nothing (file_archive: one
+            # encoded dict) or item by item (dir, sqlite), and what its encoder raises - probed on a scratch archive of the same kind
+            _, probe, _ = make_backend(c['backend'], self.tmp, name='probe', variant=c.get('variant', 0))
+            try: probe['p'] = NoWay(-1); exc = None
+            except Exception as e: exc = exc_name(e)
+            if exc is None: raise RuntimeError('the %s archive accepted NoWay' % c['backend'])
+            line.update(suite='wrapperF', refuse=[self.V(NoWay(x)) for x in c['refuse']], bulkAtomic=c['backend'] == 'file', exc=exc)
+        return line
 
     def A(self, x):
         """the argument passed for argument number x; the long-argument stratum uses long strings with a long common prefix
@@ -342,7 +367,7 @@ class Runner:
     def fnout(self, x):
         if x in self.cfg['keyerr']: return {'err': 'KeyError'}
         if x in self.cfg['raising']: return {'err': 'user:%d' % x}
-        return {'ok': self.V(value_of(x))}
+        return {'ok': self.V(result_of(x))}
 
     def snapshot(self, f):
         c = f.__cache__()
@@ -505,6 +530,10 @@ class Runner:
         if kind == 'loadAll':
             f.load(); return dict(op='loadAll'), 'unit', None
         if kind == 'dumpAll':
+            if self.cfg.get('refuse'):
+                try: f.dump(); out = 'unit'
+                except Exception as e: out = {'exc': exc_name(e), 'evals': 0}
+                return dict(op='dumpAll'), out, None
             f.dump(); return dict(op='dumpAll'), 'unit', None
         if kind in ('load', 'dump', 'setarch', 'extput', 'extdel') and not self.hashable:
             return None, 'skip', None
@@ -513,6 +542,10 @@ class Runner:
             f.load(*ks); return dict(op='load', ks=[self.K(k) for k in ks]), 'unit', None
         if kind == 'dump':
             ks = [self.keyof(x) for x in op[1]]
+            if self.cfg.get('refuse'):
+                try: f.dump(*ks); out = 'unit'
+                except Exception as e: out = {'exc': exc_name(e), 'evals': 0}
+                return dict(op='dump', ks=[self.K(k) for k in ks]), out, None
             f.dump(*ks); return dict(op='dump', ks=[self.K(k) for k in ks]), 'unit', None
         if kind in ('on', 'off'):
             try:
